@@ -34,6 +34,7 @@ type row struct {
 	Hint      []string `json:"hint"`
 	Prev      []string `json:"prev"`     // non-nil: the cache was warmed while Prev was the registered set; Reg was loaded afterwards
 	Reloaded  bool     `json:"reloaded"` // derived: Prev != nil
+	Seam      bool     `json:"seam"`     // the reload completes INSIDE the discovery of the probed segment (after its first attempt on the old generation)
 	User      string   `json:"user"`
 	Cold      string   `json:"cold"`
 	Note      string   `json:"note"`
@@ -189,7 +190,44 @@ func runRow(t *testing.T, rw *row) {
 		reg.SetUsers(userMap(rw.Shared, rw.Reg))
 		late.Record()
 	}
+	if rw.Seam {
+		return // handled by runSeamRow
+	}
 	rw.User, _ = discover(reg, segment(t, rw.Cred, rw.Hint), src)
+	rw.Cold, _ = discover(reg, segment(t, rw.Cred, rw.Hint), freshSource())
+}
+
+// runSeamRow: the probed segment is discovered while Prev is registered; the reload to Reg completes after the first attempt on the
+// old generation and before discovery decides (the seam the package's own tests use, exposed under the verif tag).
+func runSeamRow(t *testing.T, rw *row) {
+	reg := &serveruser.Registry{}
+	reg.SetHintMandatory(rw.Mandatory)
+	reg.SetUsers(userMap(rw.Shared, rw.Prev))
+	rw.Reloaded = true
+	src := freshSource()
+	for _, n := range rw.Cache {
+		_, auth := discover(reg, segment(t, credOf(rw.Shared, n), []string{n}), src)
+		auth.Record()
+	}
+	reloaded := false
+	seam := func() {
+		if !reloaded {
+			reloaded = true
+			reg.SetUsers(userMap(rw.Shared, rw.Reg))
+		}
+	}
+	probe := func(s serveruser.Source) string {
+		block, _, auth, err := reg.VerifDiscover(segment(t, rw.Cred, rw.Hint), s, true, seam)
+		if err != nil || block == nil {
+			return "none"
+		}
+		auth.Record()
+		if u, ok := back[block.BlockContext().UserName]; ok {
+			return u
+		}
+		return "?" + block.BlockContext().UserName
+	}
+	rw.User = probe(src)
 	rw.Cold, _ = discover(reg, segment(t, rw.Cred, rw.Hint), freshSource())
 }
 
@@ -208,7 +246,11 @@ func TestRows(t *testing.T) {
 		if err := dec.Decode(&rw); err != nil {
 			t.Fatal(err)
 		}
-		runRow(t, &rw)
+		if rw.Seam {
+			runSeamRow(t, &rw)
+		} else {
+			runRow(t, &rw)
+		}
 		if rw.Prev == nil {
 			rw.Prev = []string{}
 		}
